@@ -16,6 +16,7 @@ def run(prop, jobs=8):
     from mutants.corpus import CORPUS
     entries = [e for e in CORPUS if e.get("benign") or prop in e.get("expect", {})]
     seeds = []
+    benign_seeds = []
     sd = os.path.join(HERE, "seeded")
     if os.path.isdir(sd):
         for d in sorted(os.listdir(sd)):
@@ -24,6 +25,9 @@ def run(prop, jobs=8):
                 m = json.load(open(mp))
                 if m.get("breaks_property") == prop:
                     seeds.append((d, os.path.join(sd, d, "patch.diff")))
+                elif m.get("benign") and prop not in (m.get("still_alarming") or {}):
+                    # behaviour-preserving refactorings: this property's rules must stay silent on them
+                    benign_seeds.append((d, os.path.join(sd, d, "patch.diff")))
     slots = list(range(jobs))
     lock = threading.Lock()
     results = []
@@ -61,9 +65,25 @@ def run(prop, jobs=8):
             with lock:
                 slots.append(s)
 
+    def do_benign_seed(sp):
+        name, patch = sp
+        with lock:
+            s = slots.pop()
+        root = tempfile.mkdtemp(prefix="lsv-st-")
+        try:
+            if not mutate.apply_patch_copy(patch, root):
+                return ("seed:" + name, "skipped", [])
+            r = mutate.run_checks(root, [prop], os.path.join(tempfile.gettempdir(), "lsv-stwork-%d" % s))[prop]
+            return ("seed:" + name, "silent" if r["rc"] == 0 else ("false-alarm" if r["rc"] == 1 else "error"), r["keys"])
+        finally:
+            shutil.rmtree(root, ignore_errors=True)
+            with lock:
+                slots.append(s)
+
     with ThreadPoolExecutor(max_workers=jobs) as ex:
         results.extend(ex.map(do_entry, entries))
         results.extend(ex.map(do_seed, seeds))
+        results.extend(ex.map(do_benign_seed, benign_seeds))
     for s in range(jobs):
         shutil.rmtree(os.path.join(tempfile.gettempdir(), "lsv-stwork-%d" % s), ignore_errors=True)
     out = {
